@@ -34,7 +34,18 @@ fn monitor(frame: &[u8], result: &str, before: &str, after: &str, data: usize, r
     }
     // which slot could legitimately accept: first slot in Sent with marker == index of first datagram
     let idx = if frame.len() >= 18 { Some(frame[17] as u16) } else { None };
-    let owner = idx.and_then(|i| b.iter().position(|s| s.0 == 4 && s.1 == i));
+    // "awaiting this index" is judged by what the request actually carries on the wire (the index byte of the
+    // first datagram in the slot's buffer), not by the marker the receive path searches for: a marker that
+    // disagrees with the frame is itself a way of accepting strangers
+    let byte_at = |h: &str, i: usize| -> Option<u16> { h.get(2 * i..2 * i + 2).and_then(|x| u16::from_str_radix(x, 16).ok()) };
+    let owner = idx.and_then(|i| b.iter().position(|s| s.0 == 4 && s.2 >= 12 && byte_at(&s.3, 17) == Some(i) && s.1 == i));
+    for (k, s) in b.iter().enumerate() {
+        if let Some(first) = byte_at(&s.3, 17) {
+            if matches!(s.0, 2 | 3 | 4) && s.2 >= 12 && s.1 != first {
+                rep.fail("c05/marker-differs-from-frame", &format!("slot {k} (state {}) is searchable under index {} but its first datagram carries index {first}", s.0, s.1), line);
+            }
+        }
+    }
     for c in &changed {
         if Some(*c) != owner {
             rep.fail("c05/stranger-accepted", "a slot that is not awaiting this index was altered", line);
@@ -158,7 +169,22 @@ fn one_case(rng: &mut Rng, n: usize, data: usize, rep: &mut Report) {
             f.extend([0x12, 0x10, 0x10, 0x10, 0x10, 0x10, 0x88, 0xa4]);
             let l = rng.range(0, 20) as usize;
             f.extend(((12 + l) as u16 | 0x1000).to_le_bytes());
-            f.extend([4, rng.byte(), 0, 0x10, 0x30, 0x01]);
+            // the index: anything, or a neighbour of an index in use (an index burnt by a refused push, an
+            // off-by-one in the bookkeeping), or a marker currently stored in some slot
+            let stranger_idx = match rng.below(4) {
+                0 if !g.sent.is_empty() => {
+                    let i = rng.below(g.sent.len() as u64) as usize;
+                    let base = g.sent[i].bytes.get(17).copied().unwrap_or(0);
+                    base.wrapping_add(*rng.pick(&[255u8, 254, 1, 2]))
+                }
+                1 => {
+                    let snaps = parse_snap(&before);
+                    let k = rng.below(snaps.len() as u64) as usize;
+                    (snaps[k].1 & 0xff) as u8
+                }
+                _ => rng.byte(),
+            };
+            f.extend([4, stranger_idx, 0, 0x10, 0x30, 0x01]);
             f.extend((l as u16).to_le_bytes());
             f.extend([0, 0]);
             f.extend(rng.bytes(l));
